@@ -37,6 +37,10 @@ def main(tier, replay=None):
         return c.finish(TRUSTED, no_input_break="extraction/OCaml build of the Ledger model failed: " + err[-1500:])
 
     n = 32 if tier == "quick" else 160
+
+    if c.escalated:   # a modelled Go function changed since the pin (c.drift): look harder, no verdict from drift alone
+
+        n *= 3
     out = os.path.join(c.workdir, "impl.txt")
     args = [outs[0], "-n", str(n), "-out", out, "-j", str(V.NCPU)]
     args += ["-quota", "5"] if tier == "quick" else ["-all"]
